@@ -237,7 +237,7 @@ UNITS = [
              'vf_string_assign': 'stubv_string_assign', 'c3d__readParam__uint_vsz_vint_sz': 'stubp_readParam_int',
              'c3d__readParam__vsz_vfloat_sz': 'stubp_readParam_float', 'c3d__readParam__vsz_vstr': 'stubp_readParam_string'},
       unwind=6, timeout=900, level='B', object_bits=12,
-      bound='image of 24 arbitrary bytes, |name length| <= 2, at most 2 dimensions, strings of at most 4 characters (larger requests cut)',
+      bound='image of 24 arbitrary bytes, |name length| <= 2, at most 3 dimensions, strings of at most 4 characters (larger requests cut)',
       props={'memsafe': ['C13', 'C16'], 'ub': ['C13']},
       assumes=['plain symbolic execution of the real Parameter::read; read helpers = value stubs (their proved contracts); the matrix '
                'readers c3d::readParam are recording stubs that state their precondition (non-empty dimension list)']),
@@ -341,6 +341,9 @@ UNITS = [
       props={'memsafe': ['C13'], 'ub': ['C13']},
       assumes=['plain symbolic execution of the real Header::write, then of the real Header::read on the bytes written; read helpers = '
                'value stubs (their proved contracts)']),
+    U('model_string_ctor_cstr', 'contracts/model_self.c', 'h_model_string_ctor_cstr', ['vf_string_ctor_cstr/contract_vf_string_ctor_cstr'],
+      ['C02', 'C16', 'C13', 'C18'], loops=True, model_loops=True, unwind=4, timeout=900, level='PB', object_bits=12,
+      bound='C strings of at most 4096 characters'),
     U('Parameters_write', WR, 'h_Parameters_write', ['Parameters__write/contract_Parameters__write'],
       ['C01', 'C03', 'C13', 'C14', 'C10'], replace=['Group__write/contract_abs_Group__write'], unwind=5, loops=True, timeout=900,
       pre_unwind={'vf_stream_write.0': 5, 'Parameters__write.0': 3},
